@@ -3,6 +3,10 @@ import QF.Props.Tie
 namespace QF.Props.C13
 
 /-- T1: the functions this property's mirror model follows have today the source text the model was written against. -/
-theorem tie : Tie.sameAll ["qframe.QFrame.ToCSV", "fcolumn.Column.StringAt", "icolumn.Column.StringAt", "bcolumn.Column.StringAt"] = true := by decide
+-- Tie audit (bin/selftest-ties): the following functions are not compared as text any more; every behaviour-changing edit of
+-- them makes a `gen_*_canon` theorem of this property's modules fail, renaming their locals or reformatting them changes nothing:
+-- `QFrame.ToCSV`: `Gen.toCsvAst` (wast.go) + `Gen.guardAst2`, `C13WriterGen.gen_tocsv_canon` + `gen_tocsv_semantics`, `C10Guards.gen_guards2_canon` + `gen_csv_semantics`.
+-- `Column.StringAt` of fcolumn / icolumn / bcolumn: `Gen.stringAtAst` (oast.go), `C09Observe.gen_stringAt_canon` + `gen_stringAt_semantics`.
+theorem tie : Tie.sameAll [] = true := by decide
 
 end QF.Props.C13
